@@ -183,21 +183,31 @@ class GaussianMixture:
         from scipy.stats import multivariate_normal
 
         n_samples = X.shape[0]
-        responsibilities = np.zeros((n_samples, self.n_components))
+        # Work with log-densities: the densities themselves underflow (and an absolute
+        # floor added to their sum dominates it) as soon as the data are not of unit scale
+        log_prob = np.full((n_samples, self.n_components), -np.inf)
+
+        with np.errstate(divide="ignore"):
+            log_weights = np.log(weights)
 
         for k in range(self.n_components):
             cov = self._get_covariance(covariances, k)
             try:
-                responsibilities[:, k] = weights[k] * multivariate_normal.pdf(
+                log_prob[:, k] = log_weights[k] + multivariate_normal.logpdf(
                     X, mean=means[k], cov=cov + np.eye(cov.shape[0]) * self.reg_covar
                 )
             except (np.linalg.LinAlgError, ValueError):
-                responsibilities[:, k] = weights[k] * multivariate_normal.pdf(
+                log_prob[:, k] = log_weights[k] + multivariate_normal.logpdf(
                     X, mean=means[k], cov=np.eye(len(means[k])) * self.reg_covar
                 )
 
-        # Normalize
-        responsibilities /= np.sum(responsibilities, axis=1, keepdims=True) + 1e-10
+        # Normalize (points with zero density under every component are shared equally)
+        log_prob = np.nan_to_num(log_prob, nan=-np.inf)
+        row_max = np.max(log_prob, axis=1, keepdims=True)
+        supported = np.isfinite(row_max[:, 0])
+        responsibilities = np.full((n_samples, self.n_components), 1.0 / self.n_components)
+        responsibilities[supported] = np.exp(log_prob[supported] - row_max[supported])
+        responsibilities /= np.sum(responsibilities, axis=1, keepdims=True)
 
         return responsibilities
 
